@@ -30,15 +30,8 @@ class C10(Spec):
                   "primary keys without the '-' separator; index values of fixed width for lookup exactness; join tables are checked "
                   "on the implementation only (reference predicates, no model).")
     def runs(self, tier, seed):
-        # second run: join tables, predicate-only (no Lean model of join.go)
+        # second run: join tables (Model/C10Join.lean)
         return [dict(env={}), dict(env={"VERIF_C10_MODE": "join"})]
-
-    def drv_for(self, run):
-        import os
-        env = run.get("env", {})
-        if env.get("VERIF_C10_MODE") == "join" or os.path.basename(env.get("VERIF_REPLAY", "")).startswith("join_"):
-            return None
-        return self.drv
 
     assumptions = (
         "goleveldb/memdb behave as an ordered map with range iterators (C06)",
